@@ -124,7 +124,7 @@ class Equation(object):
             if term.IsBlob:
                 raise LogicError('Cannot add a blob to non-empty equation')
         for other in self.TermList:
-            if term.Term == other.Term:
+            if term.Term == other.Term and not other.IsBlob:
                 # Already exists; just add the constants together.
                 other.Constant += term.Constant
                 return
